@@ -36,6 +36,15 @@ def picky(value):
     return value
 
 
+# ---- two datatypes whose dotted names differ in letter case only
+def shout(value):
+    return value.upper() + '!'
+
+
+def Shout(value):      # noqa
+    return "'" + value + "'"
+
+
 # ---- C19: counting datatypes with an injectable failure point
 COUNTER = {'n': 0, 'fail_at': None, 'sn': 0, 'sfail_at': None}
 
